@@ -15,6 +15,9 @@ from vf import gen, gt
 SIMPLE_TYPES = [["int"], ["str"], ["bool"], ["float"], ["list", ["int"]], ["opt", ["str"]], ["dict", ["str"], ["int"]]]
 
 
+CONFUSABLE = "reexp:module_named_like_reexported_declaration"
+
+
 def is_private_name(name: str) -> bool:
     return name.startswith("_") and not (name.startswith("__") and name.endswith("__") and len(name) > 4)
 
@@ -52,6 +55,9 @@ def _members(draw: Any, namer: gen.Namer, depth: int, priv_bias: int, top_pool: 
         kind = draw(st.sampled_from(["method", "method", "static", "classmethod", "property"]))
         params = [] if kind == "property" else [gt.param(namer.fresh("p"), "pos", ["int"], None) for _ in range(draw(st.sampled_from([0, 1, 1, 2, 4])))]
         members.append(gt.func(nm("me", allow_dunder=(kind == "method")), params, ret=draw(st.sampled_from(SIMPLE_TYPES)), kind=kind))
+        # an overloaded method: '@overload' signatures in front of the (for static / class methods: decorated) implementation
+        if kind != "property" and draw(st.integers(0, 5)) == 0:
+            members[-1]["overloads"] = draw(st.integers(1, 3))
     if depth < 2:
         for _ in range(draw(st.sampled_from([0, 0, 1, 1, 2]))):
             sub_members, sub_ctor = draw(_members(namer, depth + 1, priv_bias, top_pool))
@@ -215,9 +221,15 @@ class Facts:
                         continue
                     for d in m["decls"]:
                         rx.setdefault((mpath, d["name"]), []).append({"target": target, "form": "module", "alias": None, "module_alias": stmt[3]})
+        # a module named like a declaration that some __init__ re-exports by name (from another module): the tool matches
+        # re-exports by name suffix and takes the module for the re-exported thing (open finding, extended feature)
+        from_names = {stmt[2] for stmts in pkg.get("inits", {}).values() for stmt in stmts if stmt[0] == "from"}
+        module_names = {m["path"][-1] for m in pkg["modules"]}
         for m in pkg["modules"]:
             mod_private_path = any(is_private_name(seg) for seg in m["path"][1:])
             for d in m["decls"]:
+                if m["path"][-1] in from_names or (d["name"] in module_names and d["name"] in from_names):
+                    d["tags"] = sorted(set(d.get("tags", [])) | {CONFUSABLE})
                 res = rx.get((tuple(m["path"]), d["name"]), [])
                 names = {d["name"]}
                 containers = {".".join(m["path"])}
